@@ -17,6 +17,7 @@ from __future__ import annotations
 import gc
 import hashlib
 import random
+import re
 import sys
 import threading
 import types
@@ -86,6 +87,8 @@ def gen_plan(run_seed: int, k: int, tier: str) -> dict:
         gsel["P-mod"] = fixed["P-mod"]
     if rng.random() < 0.2:
         gsel["P-fold"] = fixed["P-fold"]
+    if rng.random() < 0.25:
+        gsel["P-cyc"] = fixed["P-cyc"]
     if bundled and rng.random() < 0.5:
         name = rng.choice(sorted(bundled))
         gsel[name] = bundled[name]
@@ -493,6 +496,132 @@ def gen_race_plan(run_seed: int, k: int) -> dict:
     return {"property": "C15", "kind": "race", "run_seed": run_seed, "job": k, "grammars": {g: gsel[g]["text"] for g in gids}, "optimizers": optimizers, "phases": phases}
 
 
+def gen_sweep_plan(run_seed: int, k: int) -> dict:
+    """A SWEEP plan: one object kind (grammar, optimizer setting, interpreter | generated), a
+    few call pairs (c1, c2), and EVERY single pre-emption of c1 by c2 that matters:
+
+    * cold sweep (up to 6 call pairs) -- a probe round runs c1 twice on a fresh object and
+      records the lines each run executes; the lines only the first (cold) run executes are
+      once-only code (lazy initialisation, first-use caches).  Then one round per such step k:
+      a FRESH object, client 0 runs c1 up to step k, client 1 runs c2 to completion, client 0
+      finishes.  When the cold run executes no line of its own, a dozen evenly spaced steps
+      are tried on fresh objects all the same.
+    * warm sweep (one call pair) -- one object, used before; one round per step k of c1 (all
+      of them, or an even stride when c1 is long): per-call scratch that two callers share.
+
+    Which window is hit no longer depends on luck, only the choice of object kind and call
+    pair does (that is what the seed draws).  A window that needs two pre-emptions is out of
+    reach of a sweep; the race plans keep sampling those."""
+    rng = random.Random(run_seed)
+    fixed = sorted(pool.FIXED)
+    small = sorted(n for n, g in pool.bundled().items() if len(g["text"]) < 2100)
+    r = rng.random()
+    if r < 0.6 or not small:
+        name = rng.choice(fixed)
+        g = pool.FIXED[name]
+    elif r < 0.87:
+        name = rng.choice(small)
+        g = pool.bundled()[name]
+    else:
+        name, g = "R0", pool.random_grammar(random.Random(common.derive_seed("C15-rg", k % 16, (k // 16) // 4, 0)))
+    calls = [c for c in g["calls"] if len(c[1]) <= 48] or g["calls"][:2]
+    flavour = "cold" if rng.random() < 0.6 else "warm"
+    pairs = []
+    for c1 in rng.sample(calls, min(len(calls), 6 if flavour == "cold" else 1)):
+        r = rng.random()
+        if r < 0.4:
+            c2 = c1
+        elif r < 0.85:
+            same = [c for c in calls if c[0] == c1[0] and c != c1]
+            c2 = rng.choice(same) if same and rng.random() < 0.6 else (c1[0], pool.mutate_input(rng, c1[1]))
+        else:
+            c2 = rng.choice(calls)
+        pairs.append([list(c1), list(c2)])
+    optimizers = {"o_none": {"passes": None}, "o_shared": {"passes": list(pool.PASS_NAMES), "shared_default": True}, "o1": {"passes": pool.random_optimizer_cfg(rng)}}
+    return {
+        "property": "C15", "kind": "sweep", "run_seed": run_seed, "job": k, "grammars": {name: g["text"]}, "optimizers": optimizers, "g": name,
+        "opt": rng.choices(("o_none", "o_shared", "o1"), (4, 4, 2))[0], "mode": "generated" if rng.random() < 0.4 else "interpreter",
+        "pairs": pairs, "flavour": flavour, "max_rounds": 200,
+    }
+
+
+def sweep_phases(plan):
+    """Generator of the phases of a sweep plan; receives the Scheduler of each phase it
+    yielded (the probe phase's line logs decide which steps are swept)."""
+    g, opt, gen_mod = plan["g"], plan["opt"], plan["mode"] == "generated"
+    n_made = [0]
+    live: list = []
+
+    def fresh():
+        n_made[0] += 1
+        pid = f"p{n_made[0]}"
+        setup = [{"op": "drop", "t": x, "husk": False, "nogc": True} for x in live]
+        del live[:]
+        setup.append({"op": "new", "id": pid, "g": g, "opt": opt, "debug": False})
+        live.append(pid)
+        if gen_mod:
+            setup.append({"op": "gen", "id": f"m{n_made[0]}", "p": pid})
+            live.append(f"m{n_made[0]}")
+        return setup, live[-1]
+
+    def parse(t, c, oid=None):
+        op = {"op": "parse", "t": t, "rule": c[0], "text": c[1], "pos": 0}
+        if oid:
+            op["oid"] = oid
+        return op
+
+    def number(setup, tag):
+        for i, op in enumerate(setup):
+            op["oid"] = f"{tag}.s.{i}"
+        return setup
+
+    only = plan.get("only")  # [[pair index, step], ...]: replay of single rounds
+    for j, (c1, c2) in enumerate(plan["pairs"]):
+        flavour = plan["flavour"]
+        if only is not None:
+            ks = [k for jj, k in only if jj == j]
+            if not ks:
+                continue
+            setup, target = fresh()
+            if flavour == "warm":
+                # a replay of single steps still has to build its object and use it once
+                setup = setup + [parse(target, c1), parse(target, c2)]
+            first_setup = setup
+        else:
+            # probe: c1 cold, c1 warm, c2 warm -- one client, traced, line logs kept
+            setup, target = fresh()
+            sc = yield {
+                "setup": number(setup, f"probe{j}"), "clients": [[parse(target, c1, f"probe{j}.c0.0"), parse(target, c1, f"probe{j}.c0.1"), parse(target, c2, f"probe{j}.c0.2")]],
+                "schedule": {"first": 0, "traced": True, "yields": []}, "faults": [], "record_lines": True,
+            }
+            logs = sc.line_logs or {}
+            cold, warm, other = logs.get(f"probe{j}.c0.0", []), logs.get(f"probe{j}.c0.1", []), logs.get(f"probe{j}.c0.2", [])
+            # a round costs about len(c1) + len(c2) steps: long calls are swept at an even stride
+            cap = max(12, min(plan.get("max_rounds", 300), 500_000 // max(1, len(warm) + len(other))))
+            if flavour == "cold":
+                seen = set(warm)
+                novel = [i + 1 for i, ln in enumerate(cold) if ln not in seen]
+                # (the step after a once-only line is a window edge too)
+                ks = sorted(set(novel) | {i + 1 for i in novel if i + 1 <= len(cold)})
+                cap = min(cap, 64)
+                if not ks:
+                    ks = list(range(1, len(cold) + 1))
+                    cap = 12
+            else:
+                ks = list(range(1, len(warm) + 1))
+            if len(ks) > cap:
+                ks = ks[:: -(-len(ks) // cap)]
+            first_setup = None
+        for n, k in enumerate(ks):
+            if flavour == "cold":
+                setup, target = (first_setup, target) if (n == 0 and first_setup is not None) else fresh()
+            else:
+                setup = first_setup if (n == 0 and first_setup is not None) else []
+            a = parse(target, c1, f"w{j}_{k}.c0.0")
+            b = parse(target, c2, f"w{j}_{k}.c1.0")
+            yield {"setup": number(setup, f"w{j}_{k}"), "clients": [[a], [b]], "schedule": {"first": 0, "traced": True, "yields": [[0, a["oid"], k, 1]]}, "faults": [], "sweep_k": k, "flavour": flavour}
+
+
 def gen_hashseed_job(seed: int, k: int) -> dict:
     rng = random.Random(seed)
     cands = dict(pool.FIXED)
@@ -771,7 +900,8 @@ def execute_plan(plan) -> dict:
                 gone["obj"].__dict__.clear()
                 SimParser._husks.append(gone["obj"])
             del gone
-            gc.collect()
+            if not op.get("nogc"):
+                gc.collect()
         elif kind == "gc":
             gc.collect()
         elif kind == "purge":
@@ -839,6 +969,8 @@ def execute_plan(plan) -> dict:
             op_step_cap=plan.get("op_step_cap", 2_500_000),
         )
         sched.op_order = [{op["oid"]: i for i, op in enumerate(ops)} for ops in clients]
+        if ph.get("record_lines"):
+            sched.line_logs = {}
         if explicit is not None and explicit.get("first") is not None and 0 <= explicit["first"] < n:
             sched.set_start_hint(explicit["first"])
         exhaust = {(f["client"], f["oid"]): f["headroom"] for f in ph.get("faults", ()) if f["kind"] == "exhaust"}
@@ -893,12 +1025,26 @@ def execute_plan(plan) -> dict:
             sys.settrace(None)
             sched.thread_done(me)
 
-    phases = plan.get("phases") or [plan]
     scheds = []
-    for ph in phases:
-        scheds.append(run_phase(ph))
-        if scheds[-1].capped:
-            break
+    swept = []
+    if plan.get("kind") == "sweep":
+        src = sweep_phases(plan)
+        try:
+            ph = next(src)
+            while True:
+                scheds.append(run_phase(ph))
+                if "sweep_k" in ph:
+                    swept.append([ph["sweep_k"], ph["flavour"], any(y[2] >= 0 for y in scheds[-1].recorded)])
+                if scheds[-1].capped:
+                    break
+                ph = src.send(scheds[-1])
+        except StopIteration:
+            pass
+    else:
+        for ph in plan.get("phases") or [plan]:
+            scheds.append(run_phase(ph))
+            if scheds[-1].capped:
+                break
     log = hashlib.blake2b(digest_size=12)
     for sc in scheds:
         log.update(sc.digest().encode())
@@ -922,6 +1068,7 @@ def execute_plan(plan) -> dict:
         "concurrency_probe": probe,
         "history": history,
         "budget_changes": budget_changes,
+        "swept": swept,
     }
 
 
@@ -1057,6 +1204,8 @@ def judge(plan, run, refs: RefServer):
 
 def explicit_plan(plan, run):
     """The replayable form: the schedule the run actually took replaces the policy."""
+    if plan.get("kind") == "sweep":
+        return dict(plan)
     if plan.get("phases"):
         p = dict(plan)
         phs = []
@@ -1096,7 +1245,33 @@ def race_stats(plan, run, viols, checked):
     return st, bool(checked and run["switches"])
 
 
+def sweep_stats(plan, run, viols, checked):
+    statuses = {}
+    for r in run["results"]:
+        statuses[r["status"]] = statuses.get(r["status"], 0) + 1
+    sw = run.get("swept", [])
+    st = {
+        "runs": 1,
+        "sweep_runs": 1,
+        "sweep_rounds": len(sw),
+        "sweep_rounds_cold": sum(1 for x in sw if x[1] == "cold"),
+        "sweep_rounds_with_the_planned_switch": sum(1 for x in sw if x[2]),
+        "runs_by_policy": {"sweep": 1},
+        "runs_fault_free": 1,
+        "violating_runs_fault_free": 1 if viols else 0,
+        "steps": run["steps"],
+        "switches": run["switches"],
+        "op_status": statuses,
+        "parses_checked": checked,
+        "set_sites": [f"{a}:{b}" for a, b in run["sites"]],
+        "probes": dict(run["concurrency_probe"]),
+    }
+    return st, bool(checked and run["switches"])
+
+
 def plan_stats(plan, run, viols, checked):
+    if plan.get("kind") == "sweep":
+        return sweep_stats(plan, run, viols, checked)
     if plan.get("phases"):
         return race_stats(plan, run, viols, checked)
     pol = plan.get("policy", {}).get("kind", "explicit")
@@ -1204,6 +1379,10 @@ class Check:
             plan = gen_race_plan(common.derive_seed("C15-race", seed, k), k)
             plan["hashseed"] = k % 4
             return plan
+        if k % 6 == 1:
+            plan = gen_sweep_plan(common.derive_seed("C15-sweep", seed, k), k)
+            plan["hashseed"] = k % 4
+            return plan
         plan = gen_plan(common.derive_seed("C15", seed, k), k, tier)
         plan["hashseed"] = k % 4
         return plan
@@ -1284,7 +1463,7 @@ class Check:
         st, nontrivial = plan_stats(plan, run, viols, checked)
         if nontrivial:
             st["set_nontrivial"] = [run["digest"]]
-        if nontrivial and not plan.get("phases") and len(plan["clients"]) <= 2 and sum(len(c) for c in plan["clients"]) <= 10:
+        if nontrivial and not plan.get("phases") and plan.get("kind") != "sweep" and len(plan["clients"]) <= 2 and sum(len(c) for c in plan["clients"]) <= 10:
             st["sample_runs"] = [self.describe(explicit_plan(plan, run))[:1500]]
         out_v = []
         seen = set()
@@ -1361,6 +1540,8 @@ class Check:
     def plan_size(self, plan):
         if plan.get("kind") == "hashseed":
             return len(plan["calls"])
+        if plan.get("kind") == "sweep":
+            return 40 + (20 * len(plan["only"]) if plan.get("only") is not None else 20 * plan.get("max_rounds", 300) * len(plan["pairs"])) + sum(len(a[1]) + len(b[1]) for a, b in plan["pairs"])
         if plan.get("phases"):
             return sum(20 + 10 * sum(len(c) for c in ph["clients"]) + 5 * len(ph.get("setup", ())) + len((ph.get("schedule") or {}).get("yields", ())) for ph in plan["phases"])
         return sum(len(c) for c in plan["clients"]) * 10 + len(plan.get("setup", ())) * 10 + len((plan.get("schedule") or {}).get("yields", ())) + 5 * len(plan.get("faults", ())) + sum(len(op.get("text", "")) for c in plan["clients"] for op in c) // 10
@@ -1373,6 +1554,26 @@ class Check:
             if plan["passes"] and len(plan["passes"]) > 1:
                 for i in range(len(plan["passes"])):
                     yield {**plan, "passes": plan["passes"][:i] + plan["passes"][i + 1 :]}
+            return
+        if plan.get("kind") == "sweep":
+            # the one round in which the violation was seen (w<pair>_<step>.c?.0), then simpler arguments
+            oid = str((plan.get("violation") or {}).get("detail", {}).get("oid") or "")
+            m = re.match(r"w(\d+)_(\d+)\.", oid)
+            if plan.get("only") is None and m:
+                yield {**plan, "only": [[int(m.group(1)), int(m.group(2))]]}
+            if plan.get("only") and len(plan["only"]) > 1:
+                for i in range(len(plan["only"])):
+                    yield {**plan, "only": plan["only"][:i] + plan["only"][i + 1 :]}
+            for j, (c1, c2) in enumerate(plan["pairs"]):
+                if c2 != c1 and (plan.get("only") is None or any(jj == j for jj, _ in plan["only"])):
+                    yield {**plan, "pairs": plan["pairs"][:j] + [[c1, c1]] + plan["pairs"][j + 1 :]}
+            if plan["mode"] == "generated":
+                yield {**plan, "mode": "interpreter"}
+            spec = plan["optimizers"].get(plan["opt"], {})
+            ps = spec.get("passes")
+            if ps and len(ps) > 1 and not spec.get("shared_default"):
+                for i in range(len(ps)):
+                    yield {**plan, "optimizers": {**plan["optimizers"], plan["opt"]: {**spec, "passes": ps[:i] + ps[i + 1 :]}}}
             return
         if plan.get("phases"):
             phs = plan["phases"]
@@ -1468,6 +1669,19 @@ class Check:
         if plan.get("kind") == "hashseed":
             return f"hash-seed cross-check: grammar {plan.get('gname')} passes={plan['passes']} mode={plan['mode']} calls={plan['calls'][:4]}"
 
+        if plan.get("kind") == "sweep":
+            spec = plan["optimizers"][plan["opt"]]
+            o = "optimizer=None" if spec["passes"] is None else ("DEFAULT_OPTIMIZER" if spec.get("shared_default") else f"Optimizer({spec['passes']})")
+            which = "every step only a cold call executes" if plan["flavour"] == "cold" else "every step"
+            pairs = list(enumerate(plan["pairs"]))
+            if plan.get("only") is not None:
+                pairs = [(j, pr) for j, pr in pairs if any(jj == j for jj, _ in plan["only"])]
+            txt = "; ".join(
+                f"client0 parse({c1[0]!r}, {c1[1][:40]!r}) pre-empted at {('step(s) ' + str([k for jj, k in plan['only'] if jj == j])) if plan.get('only') is not None else which} by client1 parse({c2[0]!r}, {c2[1][:40]!r}) running to completion"
+                for j, (c1, c2) in pairs[:4]
+            )
+            return f"{plan['flavour']} sweep over {plan['g']} ({o}, {plan['mode']}), {'a fresh object per round' if plan['flavour'] == 'cold' else 'one warm object'}: {txt}" + (" ..." if len(pairs) > 4 else "")
+
         def fmt(op):
             k = op["op"]
             if k == "new":
@@ -1553,6 +1767,7 @@ class Check:
             "operation_status_counts": acc.get("op_status", {}),
             "runs_by_policy": acc.get("runs_by_policy", {}),
             "race_plans": {"runs": acc.get("race_runs", 0), "rounds": acc.get("race_rounds", 0), "rounds_with_a_mid_operation_switch": acc.get("race_rounds_with_a_mid_operation_switch", 0), "what": "30-85 short rounds per run: 6-14 with a fresh parser (+module), the rest re-using one; 2-3 clients parsing with the object at once, one or two pre-emptions per round"},
+            "sweep_plans": {"runs": acc.get("sweep_runs", 0), "rounds": acc.get("sweep_rounds", 0), "cold_rounds": acc.get("sweep_rounds_cold", 0), "rounds_in_which_the_planned_switch_happened": acc.get("sweep_rounds_with_the_planned_switch", 0), "what": "per plan one (grammar, optimizer setting, interpreter|generated, call pair): client0's call pre-empted once, at every step that only a cold call executes (fresh object per round) or at every step (one warm object), by client1's call running to completion"},
             "runs_by_client_threads": acc.get("threads", {}),
             "simulated_time_scheduler_steps": steps,
             "context_switches": acc.get("switches", 0),
